@@ -163,7 +163,7 @@ def run(plan):
         if plan.get("abandoned"):
             # history: an authentic packet of the same length was received but never read - the unit closed the
             # connection first - and is thrown away when the client reconnects
-            dev.script = [{"dup": 1, "gap": 0.05}] + dev.script
+            dev.script = [{"dup": 6, "gap": 0.01}] + dev.script
             try:
                 await lan.send(b"\xaa\x00", retries=1)
             except Exception as e:
